@@ -22,6 +22,7 @@ type rvBox struct {
 	t    types.Type
 	v    value
 	addr *value // non-nil: addressable / settable
+	ro   bool   // obtained through an unexported struct field: no Interface(), no Set
 	// method value
 	recvT types.Type
 	fn    *ssa.Function
@@ -402,6 +403,9 @@ func registerReflect() {
 		if b == nil {
 			panic(targetPanic{i.newError(Str{s: "reflect: call of reflect.Value.Interface on zero Value"}, nil)})
 		}
+		if b.ro {
+			panic(targetPanic{i.newError(Str{s: "reflect.Value.Interface: cannot return value obtained from unexported field or method"}, nil)})
+		}
 		if _, isI := b.t.Underlying().(*types.Interface); isI {
 			if x, ok := b.v.(iface); ok {
 				return x
@@ -409,8 +413,10 @@ func registerReflect() {
 		}
 		return iface{t: b.t, v: b.v}
 	})
-	vm("CanInterface", func(i *Interp, fr *frame, b *rvBox, a []value) value { return i.ctx.BoolC(b != nil) })
-	vm("CanSet", func(i *Interp, fr *frame, b *rvBox, a []value) value { return i.ctx.BoolC(b != nil && b.addr != nil) })
+	vm("CanInterface", func(i *Interp, fr *frame, b *rvBox, a []value) value { return i.ctx.BoolC(b != nil && !b.ro) })
+	vm("CanSet", func(i *Interp, fr *frame, b *rvBox, a []value) value {
+		return i.ctx.BoolC(b != nil && b.addr != nil && !b.ro)
+	})
 	vm("CanAddr", func(i *Interp, fr *frame, b *rvBox, a []value) value { return i.ctx.BoolC(b != nil && b.addr != nil) })
 	vm("Elem", func(i *Interp, fr *frame, b *rvBox, a []value) value {
 		if b == nil {
@@ -422,13 +428,13 @@ func registerReflect() {
 			if p == nil {
 				return i.mkRV(nil)
 			}
-			return i.mkRV(&rvBox{t: u.Elem(), v: copyVal(*p), addr: p})
+			return i.mkRV(&rvBox{t: u.Elem(), v: copyVal(*p), addr: p, ro: b.ro})
 		case *types.Interface:
 			x, _ := b.v.(iface)
 			if x.t == nil {
 				return i.mkRV(nil)
 			}
-			return i.mkRV(&rvBox{t: x.t, v: x.v})
+			return i.mkRV(&rvBox{t: x.t, v: x.v, ro: b.ro})
 		}
 		panic(targetPanic{i.newError(Str{s: "reflect: call of reflect.Value.Elem on " + kindOf(b.t).String() + " Value"}, nil)})
 	})
@@ -497,9 +503,9 @@ func registerReflect() {
 			if k < 0 || k >= len(x) {
 				panic(targetPanic{i.newError(Str{s: "reflect: slice index out of range"}, nil)})
 			}
-			return i.mkRV(&rvBox{t: b.t.Underlying().(*types.Slice).Elem(), v: copyVal(x[k]), addr: &x[k]})
+			return i.mkRV(&rvBox{t: b.t.Underlying().(*types.Slice).Elem(), v: copyVal(x[k]), addr: &x[k], ro: b.ro})
 		case array:
-			return i.mkRV(&rvBox{t: b.t.Underlying().(*types.Array).Elem(), v: copyVal(x[k])})
+			return i.mkRV(&rvBox{t: b.t.Underlying().(*types.Array).Elem(), v: copyVal(x[k]), ro: b.ro})
 		}
 		panic(targetPanic{i.newError(Str{s: "reflect: call of reflect.Value.Index on " + kindOf(b.t).String() + " Value"}, nil)})
 	})
@@ -513,7 +519,7 @@ func registerReflect() {
 	fieldAt := func(i *Interp, b *rvBox, k int) value {
 		st := b.t.Underlying().(*types.Struct)
 		sv := b.v.(structure)
-		nb := &rvBox{t: st.Field(k).Type(), v: copyVal(sv[k])}
+		nb := &rvBox{t: st.Field(k).Type(), v: copyVal(sv[k]), ro: b.ro || (!st.Field(k).Exported() && !st.Field(k).Embedded())}
 		if b.addr != nil {
 			if cur, ok := (*b.addr).(structure); ok {
 				nb.addr = &cur[k]
